@@ -254,7 +254,11 @@ def finish_check(pid, tier, results, t0, *, checker_cmd, not_covered, trusted_ex
       else:
         kf_lines.append(f"NOTE: known finding no longer reproduces natively: {k['what']} ({what})")
   bounded = bounded or []
-  bounded_fail = [b for b in bounded if not b.get("passed", False) and not b.get("known")]
+  bounded_fail = [b for b in bounded if not b.get("passed", False) and not b.get("known") and b.get("violations")]
+  for b in bounded:
+    if not b.get("passed", False) and not b.get("violations") and b.get("error"):
+      # the bounded stand-in did not RUN (crash, out of memory, time-out): never a verdict about the property
+      errors.append((b.get("name", "bounded check"), "bounded stand-in did not run: " + str(b["error"])[-300:]))
   for b in bounded_fail:
     violations += 1
     path = os.path.join(outdir, "replay_bounded_" + _ctx._safe(b["name"]) + ".json")
@@ -358,6 +362,10 @@ def native_oracle(pid, tier="quick", timeout=3000, extra_args=(), script=None):
   else:
     args = [os.path.join(VERIF, "native", script)] + list(extra_args)
   rc, out, err = native(args, timeout=timeout)
+  if rc not in (0, 1) and not any(l.strip().startswith(("{", "[{")) for l in out.strip().splitlines()[-3:]):
+    # crashed (e.g. XLA 'Cannot allocate memory' under load): one retry after a pause
+    time.sleep(20)
+    rc, out, err = native(args, timeout=timeout)
   res = None
   for line in reversed(out.strip().splitlines()):
     line = line.strip()
